@@ -9,7 +9,7 @@ from scipy import sparse
 
 from ..battery import call, _Raised
 
-TIERS = {"quick": 900, "thorough": 15000}
+TIERS = {"quick": 900, "thorough": 60000}
 WATCHDOG_S = {"quick": 1200, "thorough": 10000}
 RULE = ("case kinds by index mod 3: 0,1 = closed forms for one parameter set (N 2-8, K 1-4, D 2..N, u>=0 with zero entries and "
         "zero rows, w symmetric full or diagonal) against sums over ALL hyperedges up to size D; 2 = one fit configuration "
